@@ -1,13 +1,25 @@
 /-
 C14 — RTSP wire codec round-trips and frames interleaved data exactly.
 Property theorems only; helper lemmas live in IpcHub/Lemmas/RtspWire*.lean.
+
+Model: Model/RtspWire.lean (header.go, request.go, response.go, rtp/packet.go, service/rtsp/io.go),
+instantiated with the regenerated facts in Model/RtspWireInst.lean (`genCfg`, `genStatusTable`,
+`genMethods`).  Specification: Spec/RtspCodec.lean.  `net/url` is the parameter `ops`.
 -/
+import IpcHub.Lemmas.RtspWireStream
+import IpcHub.Lemmas.RtspWirePanic
+import IpcHub.Lemmas.RtspWireCanon
 import IpcHub.Model.RtspWireInst
-import IpcHub.Spec.RtspCodec
 namespace IpcHub.Props.C14
 open IpcHub.RtspWire
+open IpcHub.RtspSpec (fieldNameOK fieldValueOK uriOK decimal guaranteedBody)
 
-/-- The source facts the theorems rest on, regenerated from /repo on every run. -/
+local notation "Bytes" => List UInt8
+
+/-- The source facts the theorems rest on, regenerated from /repo on every run: the line and
+    Content-Length limits and their guards, the body read error being returned, the recovering
+    RTP header parse, the field-name / status / method tables, the literals the writers emit,
+    and the dispatch of `receive`. -/
 theorem c14_source_facts :
     IpcHub.Gen.rtspWireFactsUnknown = [] ∧
     IpcHub.Gen.lineLimit = some 16384 ∧ IpcHub.Gen.bodyLimit = some 1048576 ∧
@@ -21,8 +33,215 @@ theorem c14_source_facts :
     IpcHub.Gen.headerWriteLine = "[]string{kv.key, \": \", value, \"\\r\\n\"}" ∧
     IpcHub.Gen.headerValueSeparator = ", " ∧
     IpcHub.Gen.transferPrefix = 0x24 ∧ IpcHub.Gen.channelCount = 4 ∧
+    IpcHub.Gen.packetWriteSeq =
+      ["if p.Channel >= ChannelCount { return errors.New(\"unknow pack type\") }", "ch := channelConfig[p.Channel]",
+       "if ch < 0 || ch > 255 { return nil }", "prefix[0] = TransferPrefix", "prefix[1] = byte(ch)",
+       "binary.BigEndian.PutUint16(prefix[2:], uint16(len(p.Data)))",
+       "if _, err := w.Write(prefix[:]); err != nil { return err }",
+       "if _, err := w.Write(p.Data); err != nil { return err }", "return nil"] ∧
     IpcHub.Gen.receivePeek = 4 ∧
     IpcHub.Gen.receiveDispatch = ["sl[0] == rtpPackPrefix", "pack != nil", "for i < 4", "sl[i] != rtspProto[i]", "i == 4"] := by
   decide
+
+/-- The codec of the current tree as the model sees it: limits on, errors returned; the limits
+    leave room for every body the specification guarantees; the canonical field names are ASCII
+    and pairwise different when upper-cased (so the case folding is well defined) and contain
+    `Content-Length`; every status text of the table is free of CR/LF with a code of three
+    digits, and every method constant is a token of ≥ 4 bytes that starts with neither `$` nor
+    "RTSP" (so `receive` dispatches emitted messages correctly). -/
+theorem c14_codec_facts :
+    genCfg.maxLine = some 16384 ∧ genCfg.maxBody = some 1048576 ∧ genCfg.bodyErrReturned = true ∧
+    genCfg.rtpRecover = true ∧ guaranteedBody ≤ 1048576 ∧
+    (∀ f ∈ genCfg.fieldNames, ∀ b ∈ f, b < 0x80) ∧
+    (genCfg.fieldNames.map (fun f => f.map upperByte)).Nodup ∧
+    fieldContentLength ∈ genCfg.fieldNames ∧
+    (∀ p ∈ genStatusTable, 100 ≤ p.1 ∧ p.1 ≤ 999 ∧ (0x0A : UInt8) ∉ p.2 ∧ (0x0D : UInt8) ∉ p.2) ∧
+    (∀ m ∈ genMethods, fieldNameOK m = true ∧ m.head? ≠ some 0x24 ∧ m.length ≥ 4 ∧ m.take 4 ≠ rtspProto.take 4) := by
+  decide
+
+/-- every canonical field name is a fixed point of the case folding -/
+theorem c14_canonical_names_fixed (f : Bytes) (hf : f ∈ genCfg.fieldNames) : canonKey genCfg f = f :=
+  canonKey_fold genCfg c14_codec_facts.2.2.2.2.2.2.1 f f hf (c14_codec_facts.2.2.2.2.2.1 f hf) rfl
+
+/-- `c14_request_roundtrip`: for EVERY request the writer can emit — any method token (not
+    starting with `$`), any URL that `net/url` prints without blanks and parses back, any header
+    map whose written form consists of well-formed field lines with pairwise different canonical
+    names, any body up to the limit — and EVERY continuation `rest` of the stream:
+    `ReadRequest` returns the same method, URL, protocol "RTSP/1.0", the header with canonical
+    names / joined values / Content-Length set, and the same body, and leaves the stream exactly
+    at `rest`. -/
+theorem c14_request_roundtrip {U : Type} (ops : UrlOps U)
+    (method : Bytes) (url : U) (proto0 : Bytes) (h : Header) (body rest : Bytes)
+    (hm : fieldNameOK method = true) (hdollar : method.head? ≠ some 0x24)
+    (hu : uriOK (ops.print url) = true) (hparse : ops.parse (ops.print url) = some url)
+    (hset : ops.setHost url (ops.host url) = url) (hhost : trimSuffixColon (ops.host url) = ops.host url)
+    (hstar : ops.print url = [0x2A] → method = methodOptions)
+    (hline : method.length + 1 + (ops.print url).length + 9 ≤ 16384)
+    (hh : HeaderOK genCfg h body) (hlen : body.length ≤ 1048576) :
+    readRequest genCfg ops (writeRequest ops { method, url, proto := proto0, header := h, body } ++ rest) =
+      .ok ({ method, url, proto := ascii "RTSP/1.0", header := readBackHeader genCfg h body, body }, rest) := by
+  rw [ascii_proto]
+  exact readRequest_written genCfg ops 16384 1048576 c14_codec_facts.1 c14_codec_facts.2.1 (by decide)
+    method url proto0 h body rest hm hdollar hu hparse hset hhost hstar hline hh.fields hh.distinct
+    (c14_canonical_names_fixed _ c14_codec_facts.2.2.2.2.2.2.2.1) hh.stray hlen
+
+/-- `c14_response_roundtrip`: for EVERY response the writer can emit (status code 100…999, reason
+    text — given, from the status table, or "status code N" — free of LF, header and body as
+    above) and EVERY continuation: `ReadResponse` returns protocol "RTSP/1.0", the same code,
+    the status line text, header and body, and leaves the stream exactly at `rest`. -/
+theorem c14_response_roundtrip (code : Nat) (status : Bytes) (h : Header) (body rest : Bytes)
+    (hc1 : 100 ≤ code) (hc2 : code ≤ 999)
+    (hreason : (0x0A : UInt8) ∉ statusTextOf genStatusTable code status)
+    (hline : 13 + (statusTextOf genStatusTable code status).length ≤ 16384)
+    (hh : HeaderOK genCfg h body) (hlen : body.length ≤ 1048576) :
+    readResponse genCfg (writeResponse genStatusTable code status h body ++ rest) =
+      .ok ({ proto := ascii "RTSP/1.0", statusCode := code,
+             status := decimal code ++ 0x20 :: statusTextOf genStatusTable code status,
+             header := readBackHeader genCfg h body, body }, rest) := by
+  rw [ascii_proto]
+  exact readResponse_written genCfg 16384 1048576 c14_codec_facts.1 c14_codec_facts.2.1 (by decide)
+    genStatusTable code status h body rest hc1 hc2 hreason hline hh.fields hh.distinct
+    (c14_canonical_names_fixed _ c14_codec_facts.2.2.2.2.2.2.2.1) hh.stray hlen
+
+/-- `c14_frame_roundtrip`: for EVERY channel table, EVERY channel type `c < 4` whose table entry
+    is a channel number 0…255 that maps back to `c`, EVERY payload of 0…65535 bytes (with a
+    parsable RTP header on the two media channels) and EVERY continuation: `ReadPacket` reads
+    what `Packet.Write` wrote as the same channel type and payload and leaves the stream at `rest`. -/
+theorem c14_frame_roundtrip (chans : List Int) (c : Nat) (ch : Int) (data rest : Bytes) (off : Nat)
+    (hc : c < 4) (hch : chans[c]? = some ch) (hr : 0 ≤ ch ∧ ch ≤ 255)
+    (hfirst : findChannel chans ch 0 = some c) (hlen : data.length ≤ 65535)
+    (hrtp : if c = 0 ∨ c = 2 then rtpUnmarshal data = .ok off else off = 0) :
+    ∃ w, writePacket chans c data = some w ∧
+      readPacket genCfg chans (w ++ rest) = .ok (some ⟨c, data, off⟩, rest) :=
+  readPacket_writePacket genCfg chans c ch data rest off hc hch hr hfirst hlen hrtp
+
+/-- `c14_stream`: for EVERY list of emit-able requests, responses and interleaved frames
+    (`Item.OK`: the hypotheses of the three theorems above), the read loop of `Session.process`
+    / `PullClient` — `receive` until it fails — applied to their concatenation yields exactly
+    that sequence of events, each `receive` consuming exactly one item, and then ends with EOF. -/
+theorem c14_stream {U : Type} (ops : UrlOps U) (chans : List Int) (items : List (Item U))
+    (hok : ∀ it ∈ items, it.OK genCfg ops genStatusTable chans 16384 1048576) (fuel : Nat) (hf : fuel > items.length) :
+    receiveAll genCfg ops chans fuel ((items.map (fun it => it.wire ops genStatusTable chans)).flatten) =
+      (items.map (fun it => it.event genCfg genStatusTable), .eof) :=
+  receiveAll_items genCfg ops genStatusTable chans 16384 1048576 c14_codec_facts.1 c14_codec_facts.2.1 (by decide)
+    (c14_canonical_names_fixed _ c14_codec_facts.2.2.2.2.2.2.2.1) items hok fuel hf
+
+/-- one step of `c14_stream`, for an arbitrary continuation (not only further items): one
+    `receive` consumes exactly one item and leaves the stream positioned at what follows -/
+theorem c14_receive_one {U : Type} (ops : UrlOps U) (chans : List Int) (it : Item U)
+    (hok : it.OK genCfg ops genStatusTable chans 16384 1048576) (rest : Bytes) :
+    receive genCfg ops chans (it.wire ops genStatusTable chans ++ rest) = .ok (it.event genCfg genStatusTable, rest) :=
+  receive_item genCfg ops genStatusTable chans 16384 1048576 c14_codec_facts.1 c14_codec_facts.2.1 (by decide)
+    (c14_canonical_names_fixed _ c14_codec_facts.2.2.2.2.2.2.2.1) it hok rest
+
+/-- field names are case-insensitive: a name that equals a known field up to ASCII case reads
+    back in the canonical spelling, any other ASCII name unchanged -/
+theorem c14_field_names_fold (f k : Bytes) (hf : f ∈ genCfg.fieldNames) (hk : ∀ b ∈ k, b < 0x80) :
+    (k.map upperByte = f.map upperByte → canonKey genCfg k = f) ∧
+    ((∀ g ∈ genCfg.fieldNames, g.map upperByte ≠ k.map upperByte) → canonKey genCfg k = k) :=
+  ⟨canonKey_fold genCfg c14_codec_facts.2.2.2.2.2.2.1 f k hf hk, canonKey_other genCfg k hk⟩
+
+/-- `c14_total`: for EVERY byte string, EVERY channel table and EVERY `net/url` behaviour the
+    readers and the read loop return a message or an ordinary error — no Go slice or index
+    expression of the codec goes out of range, and a panic inside pion's RTP header parser is
+    turned into an error. -/
+theorem c14_never_panics {U : Type} (ops : UrlOps U) (chans : List Int) (s : Bytes) :
+    receive genCfg ops chans s ≠ .error .panic ∧ readRequest genCfg ops s ≠ .error .panic ∧
+    readResponse genCfg s ≠ .error .panic ∧ readPacket genCfg chans s ≠ .error .panic ∧
+    ∀ fuel, (receiveAll genCfg ops chans fuel s).2 ≠ .panic :=
+  ⟨receive_ne_panic genCfg c14_codec_facts.2.2.2.1 ops chans s,
+   fun h => readRequest_ne_panic genCfg ops s _ rfl h,
+   readResponse_ne_panic genCfg s,
+   readPacket_ne_panic genCfg c14_codec_facts.2.2.2.1 chans s,
+   fun fuel => receiveAll_ne_panic genCfg c14_codec_facts.2.2.2.1 ops chans fuel s⟩
+
+/-- `c14_bounded` (lines): if the first 16386 bytes of what a line reader sees hold no LF, the
+    request, the response and the header reader fail with the line-limit error WHATEVER follows —
+    the verdict needs a bounded prefix only, nothing is buffered beyond it. -/
+theorem c14_line_bounded {U : Type} (ops : UrlOps U) (l rest : Bytes) (h : (0x0A : UInt8) ∉ l) (hl : l.length ≥ 16386) :
+    readRequest genCfg ops (l ++ rest) = .error .lineTooLong ∧
+    readResponse genCfg (l ++ rest) = .error .lineTooLong ∧
+    readHeader genCfg (l ++ rest) = .error .lineTooLong := by
+  have hr := readLine_too_long genCfg 16384 c14_codec_facts.1 l rest h hl
+  refine ⟨?_, ?_, ?_⟩
+  · unfold readRequest; rw [hr]
+  · unfold readResponse; rw [hr]
+  · unfold readHeader readHeaderAux; rw [hr]
+
+/-- `c14_bounded` (bodies): a header whose Content-Length is a number above 1 MiB, or does not
+    fit 64 bits, makes the body reader fail before it looks at — let alone allocates for — a
+    single body byte, for EVERY stream behind it. -/
+theorem c14_content_length_bounded (h : Header) (s : Bytes)
+    (hbig : parseInt (h.get fieldContentLength) 64 = .rangeErr ∨
+            ∃ n, parseInt (h.get fieldContentLength) 64 = .ok n ∧ n > 1048576) :
+    readBody genCfg h s = .error .bodyTooLarge := by
+  unfold readBody contentLength
+  rw [c14_codec_facts.2.1]
+  rcases hbig with hb | ⟨n, hn, hgt⟩
+  · simp [hb]
+  · simp [hn, hgt]
+
+/-- the body read error is returned: a stream that ends inside the announced body yields an
+    error, never a padded message -/
+theorem c14_truncated_body_is_error (h : Header) (s : Bytes) (n : Nat)
+    (hcl : contentLength genCfg h = .ok n) (hshort : s.length < n) :
+    ∃ e, readBody genCfg h s = .error e := by
+  unfold readBody
+  rw [hcl]
+  cases n with
+  | zero => omega
+  | succ k =>
+    simp only
+    have : readFull (k + 1) s = .error (if s.isEmpty then .eof else .unexpectedEOF) := by
+      unfold readFull
+      have : ¬ (k + 1 ≤ s.length) := by omega
+      simp only [this, if_false]
+      split <;> simp_all
+    rw [this, c14_codec_facts.2.2.1]
+    exact ⟨_, rfl⟩
+
+/-- the codec before the fixes (limits off, body error dropped, no recover) -/
+def oldCfg : Cfg := { genCfg with maxLine := none, maxBody := none, bodyErrReturned := false, rtpRecover := false }
+
+/-- Why the limits and the returned error matter — the behaviour of the code before the fixes
+    (`ee03415`, `e7ebddf`, `a2bb290`), kept as proved counter-examples about the model with the
+    old flags: a line of ANY length was accepted; ANY Content-Length below 2^31 was accepted (and
+    allocated) — in particular 2^31−1; EVERY stream ending inside the announced body produced a
+    complete-looking message padded with zero bytes; an RTP header extension running past the
+    packet made `ReadPacket` panic. -/
+theorem c14_old_code_counterexamples :
+    (∀ n, readLine oldCfg (List.replicate n 0x61 ++ crlf) = .ok (List.replicate n 0x61, [])) ∧
+    (∀ n, n < 2 ^ 31 → contentLength oldCfg [(fieldContentLength, [decimal n])] = .ok n) ∧
+    (∀ h s n, contentLength oldCfg h = .ok (n + 1) → s.length < n + 1 →
+       readBody oldCfg h s = .ok (s ++ List.replicate (n + 1 - s.length) 0, [])) ∧
+    resultErr (readPacket oldCfg [0, 1, 2, 3]
+      [0x24, 0, 0, 20, 0x90, 96, 0, 1, 0, 0, 0, 1, 0, 0, 0, 2, 0x10, 0x00, 0, 1, 5, 200, 1, 2]) = some .panic := by
+  refine ⟨fun n => ?_, fun n hn => ?_, fun h s n hcl hs => readBody_old_pads oldCfg rfl h s n hcl hs, by decide⟩
+  · have := readLine_crlf oldCfg (List.replicate n 0x61) [] (by simp) (by intro m hm; simp [oldCfg] at hm)
+    simpa using this
+  · have hp := parseInt_decimal n 32 (by simpa using hn) (by omega)
+    simp [contentLength, oldCfg, Header.int, Header.get, hp]
+    omega
+
+/-- the same frame on the current tree: no panic; the frame is consumed and skipped, the stream
+    stays in step (a test on a literal) -/
+theorem c14_fixed_example :
+    resultVal (readPacket genCfg [0, 1, 2, 3]
+      [0x24, 0, 0, 20, 0x90, 96, 0, 1, 0, 0, 0, 1, 0, 0, 0, 2, 0x10, 0x00, 0, 1, 5, 200, 1, 2, 0x24]) = some (none, [0x24]) := by
+  decide
+
+/-- non-vacuity: an ordinary header satisfies `HeaderOK` (the other hypotheses of the round-trip
+    theorems are plain size bounds and `net/url` laws) -/
+example : HeaderOK genCfg [(ascii "CSeq", [ascii "2"])] [] := by
+  have hw : writtenFields [(ascii "CSeq", [ascii "2"])] [] = [(ascii "CSeq", ascii "2")] := by decide
+  refine ⟨?_, ?_, ?_⟩
+  · rw [hw]; intro f hf
+    simp only [List.mem_singleton] at hf; subst hf
+    refine ⟨by decide, by decide, ?_⟩
+    intro m hm; rw [c14_codec_facts.1] at hm; cases hm; decide
+  · rw [hw]; simp
+  · intro _ f hf
+    rw [hw] at hf; simp only [List.mem_singleton] at hf; subst hf
+    rw [c14_canonical_names_fixed _ (by decide)]; decide
 
 end IpcHub.Props.C14
